@@ -31,6 +31,7 @@ class Engine(Interp, InterpExpr, InterpComp, InterpStmt, InterpCall, InterpBuilt
         self.exact_refs = set()
         self.old_heap = None
         self.effects_base = []
+        self.loops_passed = []     # (loop key, length of the effect log when the loop was left) on this path
         self.call_stack = []
         self.entry_vars = {}
         self.external_results = []
@@ -501,6 +502,11 @@ def verify_function(world, con, variant=None, budget=None, max_paths=4000):
         res.error = f'engine crash: {type(e).__name__}: {e}\n{traceback.format_exc()}'
     finally:
         reg.current = None
+    if res.error is None:
+        from .loops import check_effect_queries
+        msg = check_effect_queries(runner)
+        if msg:
+            res.error = f'unsupported: {msg}'
     # implicit safety obligations: every partial operation met on some path
     explicit = {o.name for o in runner.obligations.values()}
     res.obligations = list(runner.obligations.values())
